@@ -325,6 +325,13 @@ def _wide_cases(tier, seed, i0):
             c.update(ter=bool(k % 2), header=True, bf="none")
         yield c
         i += 1
+    # HDF5: single fields stored in another unit than the rest (every non-empty subset of the four unit-bearing fields)
+    import itertools as _it
+    subsets = [list(c) for r in range(1, 5) for c in _it.combinations(sorted(H5_UNIT_EDITS), r)]
+    for k, fields in enumerate(subsets):
+        yield dict(i=i, kind="h5units", seed=common.case_seed(seed, "C01h5u", k), ext="h5", nf=3, na=int([2, 10, 33][k % 3]), mag=5.0, dist="spread", sign="mixed",
+                   time="nonuniform", cell=["tric", "ortho", "pf-tric"][k % 3], cellscale=1.0, top="ident", fields=fields)
+        i += 1
     # numbered restart files: the zero padding of the suffix changes width at 10 and 100 frames
     for k, (ext, m) in enumerate([(e, m) for e in ("rst7", "ncrst") for m in ((9, 10) if tier == "quick" else (9, 10, 99, 100))]):
         yield dict(i=i, seed=common.case_seed(seed, "C01rst", k), ext=ext, nf=m, na=int([3, 10][k % 2]), mag=3.0, dist="spread", sign="mixed", time="nonuniform",
@@ -895,8 +902,45 @@ def _reason(e):
     return f"{type(e).__name__}: {s[:60]}"
 
 
+H5_UNIT_EDITS = {"coordinates": ("angstroms", 10.0), "cell_lengths": ("angstroms", 10.0), "time": ("femtoseconds", 1000.0),
+                 "cell_angles": ("radians", np.pi / 180.0)}
+
+
+def _run_h5units(case, ctx):
+    """'... all expressed in nanometres, picoseconds and degrees whatever units the file uses natively': an MDTraj HDF5 file
+    names the unit of every field separately; the same content with SOME fields re-expressed (not all in the same way) must
+    load to the same trajectory."""
+    import mdtraj as md
+    T, rng = _build(case)
+    d = tempfile.mkdtemp(prefix="case-", dir=_TMP or "/var/tmp")
+    try:
+        path = os.path.join(d, "u.h5")
+        T.save(path)
+        ref = md.load(path)
+        fields = [f for f in case["fields"] if not (f.startswith("cell") and T.unitcell_lengths is None)]
+        for f in fields:
+            files.h5_change_units(path, f, *H5_UNIT_EDITS[f])
+        ctx.observe("h5_native_units", "+".join(f"{f}:{H5_UNIT_EDITS[f][0]}" for f in fields) or "defaults")
+        got = md.load(path)
+        for name, a, b in (("xyz", got.xyz, ref.xyz), ("time", got.time, ref.time), ("cell-lengths", got.unitcell_lengths, ref.unitcell_lengths),
+                           ("cell-angles", got.unitcell_angles, ref.unitcell_angles)):
+            if a is None or b is None:
+                ctx.check(a is None and b is None, "h5-native-units", f"h5:native-units:{name}:presence-differs", f"{name} present in one load only after re-expressing {fields}")
+                continue
+            a, b = np.asarray(a, np.float64), np.asarray(b, np.float64)
+            tol = 8 * float(np.finfo(np.float32).eps) * np.maximum(np.abs(b), 1e-6) * 4
+            ok = a.shape == b.shape and bool(np.all(np.abs(a - b) <= tol))
+            ctx.check(ok, "h5-native-units", f"h5:native-units:{name}:differs-after-a-field-was-stored-in-another-unit",
+                      f"{name} of the loaded trajectory changes (max rel {float(np.max(np.abs(a - b) / np.maximum(np.abs(b), 1e-6))) if a.shape == b.shape else 'shape'}) "
+                      f"when {fields} are stored in {[H5_UNIT_EDITS[f][0] for f in fields]}")
+    finally:
+        shutil.rmtree(d, ignore_errors=True)
+
+
 def run_case(case, ctx):
     import mdtraj as md
+    if case.get("kind") == "h5units":
+        return _run_h5units(case, ctx)
     ext = case["ext"]
     info = FMT[ext]
     canon = info["canon"]
